@@ -165,6 +165,40 @@ Aligned(items) == /\ \A n, m \in DOMAIN items : Scale(items[n].file) = Scale(ite
                   /\ \A n, m \in DOMAIN items : items[n].key = items[m].key
 SameSky(items) == \A n, m \in DOMAIN items : items[n].key = items[m].key
 
+\* ---- a SECOND encoding, for the tiling routes whose worker processes get hold of the pixel data themselves (parallel > 1):
+\* every image HDU of every file has ONE shape, so that a route that opens another HDU than the selected one cannot be
+\* told by a shape mismatch or an exception - the constant pixel value Val(p, j) alone says which HDU of which file landed
+\* in the tiles; the reference points of the WCS keys lie on one meridian KeyRise/1000 degrees apart, so that a collection
+\* whose per-file keys differ still gives a mosaic of a few hundred pixels, in which an input placed with another key than
+\* the selected one is KeyRise finest pixels away from where it belongs (or shows nothing at all)
+FlatShape == <<6, 8>>
+KeyRise == 300
+FlatCrpix(p, j) == <<SkyX(p, j) \div Scale(p), 4>>
+NearCrval(k) == <<30000, KeyRise * (KeyNo(k) - 1)>>          \* in 1/1000 degree (crvaldiv)
+FlatAxisLen(h, n) == IF h.axes[n] = "RA" THEN FlatShape[2] ELSE IF h.axes[n] = "DEC" THEN FlatShape[1] ELSE h.xlen
+FlatContent(p, j, h) ==
+    [kind |-> h.kind, shape |-> IF IsImage(h) THEN FlatShape ELSE <<>>, val |-> Val(p, j),
+     axes |-> [n \in DOMAIN h.axes |-> [name |-> h.axes[n], len |-> FlatAxisLen(h, n)]], planestep |-> PlaneStep,
+     wcs |-> {[key |-> k, crval |-> NearCrval(k), crvaldiv |-> 1000, crpix |-> FlatCrpix(p, j), cdelt |-> Cdelt(p)] : k \in h.keys}]
+FlatFileTable == [p \in DOMAIN FileSeq |-> [jj \in DOMAIN FileSeq[p] |-> FlatContent(p, jj - 1, FileSeq[p][jj])]]
+FlatObserved(o) == [path |-> o.path, file |-> o.file, hdu |-> o.hdu, key |-> o.key, shape |-> FlatShape,
+                    nhdu |-> Len(FileSeq[o.file]), val |-> Val(o.file, o.hdu), crval |-> NearCrval(o.key), crvaldiv |-> 1000,
+                    crpix |-> FlatCrpix(o.file, o.hdu), cdelt |-> Cdelt(o.file)]
+\* footprint in 1/1000 degree from the reference point of key " ": doubled centre, width, height
+FlatSky(o) == LET sc == Scale(o.file)
+                  c == FlatCrpix(o.file, o.hdu)
+              IN [cx2 |-> (FlatShape[2] + 1 - 2 * c[1]) * sc,
+                  cy2 |-> (FlatShape[1] + 1 - 2 * c[2]) * sc + 2 * KeyRise * (KeyNo(o.key) - 1),
+                  w |-> FlatShape[2] * sc, h |-> FlatShape[1] * sc]
+\* every per-file entry of the selection is in scope for EVERY file of the collection (a route that applies the entry of
+\* one list position to the file at another one then fails on nothing)
+CrossValid(files, hspec, kspec) ==
+    \A i \in DOMAIN files : \A m \in DOMAIN files :
+        LET j == IF hspec.form = "none" THEN FirstImage(files[m])
+                 ELSE Resolve(IF hspec.form = "one" THEN hspec.v[1] ELSE hspec.v[i], files[m]) IN
+        /\ j \in ImageHdus(files[m])
+        /\ (IF kspec.form = "none" THEN " " ELSE IF kspec.form = "one" THEN kspec.v[1] ELSE kspec.v[i]) \in Hdu(files[m], j).keys
+
 \* ------------------------------------------------------------------ the space of cases
 Files(l) == [i \in DOMAIN l |-> FileSeq[l[i]]]
 MaxHdus == 4
